@@ -86,6 +86,25 @@ template <class X> void one(Ctx& c, UriBox<X>& b, const Str& origin) {
     }
 }
 
+// One step further: 129 such segments, 2 164 260 735 characters -- no int can hold that length. Only the size query is made (fast
+// build only; nothing is written anywhere). A library that refuses is fine; the pinned one adds up in an int and reports success with
+// the sum wrapped to a negative figure, and uriToString with such an object writes far beyond any buffer (independent review,
+// DESIGN.md 11.2): recorded finding, the diagnoser confirms the wrapped figure.
+template <class X> void beyond_int_max(Ctx& c) {
+    typedef typename X::Char Char; typedef typename X::Uri Uri; typedef typename X::Seg Seg;
+    const size_t L = ((size_t)1 << 24) - 1; static Char* block = nullptr;
+    if (!block) { block = (Char*)malloc((L + 1) * sizeof(Char)); if (!block) { c.count("beyond_int_max_skipped_no_memory"); return; } for (size_t i = 0; i < L; i++) block[i] = X::wid('a'); block[L] = 0; }
+    Uri u; memset(&u, 0, sizeof u); std::vector<Seg> segs(129);
+    for (size_t i = 0; i < 129; i++) { segs[i].text.first = block; segs[i].text.afterLast = block + L; segs[i].next = i + 1 < 129 ? &segs[i + 1] : nullptr; segs[i].reserved = nullptr; }
+    u.pathHead = &segs[0]; u.pathTail = &segs[128];
+    long long want = 129LL * (long long)L + 128;
+    int need = -5; int rc; { LibScope ls; rc = X::ToStringCharsRequired(&u, &need); } c.evaluations++; c.count("text_beyond_int_max_measured");
+    Str what = fmt("hand-filled relative path of 129 segments, text length %lld (INT_MAX + %lld): rc=%d charsRequired=%d", want, want - (long long)INT_MAX, rc, need);
+    if (rc != URI_SUCCESS) { c.count("text_beyond_int_max_refused"); return; }
+    if (need == (int)(unsigned)(unsigned long long)want) c.violation("C05", fmt("tostring/%s/text-longer-than-INT_MAX-measured-as-a-wrapped-figure", X::tag()), what);
+    else c.violation("C05", fmt("tostring/%s/text-longer-than-INT_MAX-measured-otherwise", X::tag()), what);
+}
+
 template <class X> void run(Ctx& c, uint64_t idx) {
     Rng& r = c.rng;
     UriBox<X> b;
@@ -135,7 +154,9 @@ template <class X> void longest(Ctx& c, int shorter) {
     if (rc != URI_ERROR_TOSTRING_TOO_LONG || wr != 0 || small[0] != 0) c.violation("C05", fmt("tostring/%s/short-capacity-wrong-code", X::tag()), fmt("hand-filled text of %lld characters into 8: rc=%d charsWritten=%d", want, rc, wr));
 }
 static void run_case(Ctx& c, uint64_t idx) {
-    if (idx < 4) { c.note("tostring longest text"); if (idx & 1) longest<ApiW>(c, (int)(idx >> 1)); else longest<ApiA>(c, (int)(idx >> 1)); c.distinct(4242 + idx); return; }
+    if (idx < 4) { c.note("tostring longest text"); if (idx & 1) longest<ApiW>(c, (int)(idx >> 1)); else longest<ApiA>(c, (int)(idx >> 1)); c.distinct(4242 + idx);
+        if (idx < 2 && c.build == "fast") { if (idx & 1) beyond_int_max<ApiW>(c); else beyond_int_max<ApiA>(c); }
+        return; }
     run<ApiA>(c, idx); run<ApiW>(c, idx); }
 template <class X> void fuzz_x(Ctx& c, unsigned f, const Str& s) {
     UriBox<X> b; if (b.parse(s) != URI_SUCCESS || !b.faithful()) return;
